@@ -61,17 +61,25 @@ SlotOK(s, p, k) ==
   /\ IF sl.many THEN k >= lk ELSE k > lk
   /\ sl.decl = "Import" => s[p].file = 1 /\ Cardinality(KidsOfShape(s, p)) < MaxFiles - 1
 Obj(kd, p, sl, f, h, nr) == [kind |-> kd, parent |-> p, slot |-> sl, file |-> f, hdr |-> h, nref |-> nr]
+\* everything below is built as sequences without duplicates (a TLC set of large
+\* records costs a quadratic number of comparisons to build)
+Flat(ss) == FoldLeft(LAMBDA a, b : a \o b, <<>>, ss)
 Ext(s) ==
-  LET f == NumFiles(s) IN
-  UNION {UNION {UNION {
-      {Append(s, Obj(kd, p, CarrierMeta[s[p].kind][k].name, f, TRUE, nr)) : nr \in NrefChoices(kd)}
-        : kd \in Allowed(CarrierMeta[s[p].kind][k].decl)}
-        : k \in {k \in 1..Len(CarrierMeta[s[p].kind]) : SlotOK(s, p, k)}}
-        : p \in PathUp(s, Len(s))}
-  \cup (IF f < MaxFiles THEN {Append(s, Obj("Model", 0, "", f + 1, h, 0)) : h \in BOOLEAN} ELSE {})
+  LET f == NumFiles(s)
+      ps == SetToSeq(PathUp(s, Len(s)))
+      forSlot(p, k) == LET kds == SetToSeq(Allowed(CarrierMeta[s[p].kind][k].decl)) IN
+                       Cat([a \in 1..Len(kds) |->
+                              LET nrs == SetToSeq(NrefChoices(kds[a])) IN
+                              [b \in 1..Len(nrs) |->
+                                 Append(s, Obj(kds[a], p, CarrierMeta[s[p].kind][k].name, f, TRUE, nrs[b]))]])
+      forParent(p) == Cat([k \in 1..Len(CarrierMeta[s[p].kind]) |->
+                             IF SlotOK(s, p, k) THEN forSlot(p, k) ELSE <<>>])
+  IN Cat([i \in 1..Len(ps) |-> forParent(ps[i])])
+     \o (IF f < MaxFiles THEN <<Append(s, Obj("Model", 0, "", f + 1, TRUE, 0)),
+                                Append(s, Obj("Model", 0, "", f + 1, FALSE, 0))>> ELSE <<>>)
 RECURSIVE ShapesOf(_)
-ShapesOf(n) == IF n = 1 THEN {<<Obj("Model", 0, "", 1, h, 0)>> : h \in BOOLEAN}
-               ELSE UNION {Ext(s) : s \in ShapesOf(n - 1)}
+ShapesOf(n) == IF n = 1 THEN <<<<Obj("Model", 0, "", 1, TRUE, 0)>>, <<Obj("Model", 0, "", 1, FALSE, 0)>>>>
+               ELSE LET prev == ShapesOf(n - 1) IN Flat([i \in 1..Len(prev) |-> Ext(prev[i])])
 TotalRefs(s) == LET RECURSIVE Sum(_)
                     Sum(i) == IF i = 0 THEN 0 ELSE s[i].nref + Sum(i - 1)
                 IN Sum(Len(s))
@@ -86,7 +94,14 @@ Complete(s) ==
        /\ s[o].nref > 0 => Visible(s, s[o].file) # {}
   /\ NumFiles(s) = 1 + Cardinality({o \in 1..Len(s) : s[o].kind = "Import"})
   /\ TotalRefs(s) <= MaxRefs
-Shapes == UNION {{s \in ShapesOf(n) : Complete(s)} : n \in 1..MaxObjs}
+RECURSIVE ShapesUpTo(_, _)
+\* <<complete shapes with <= n objects, all shape prefixes with exactly n objects>>
+ShapesUpTo(n, dummy) ==
+  IF n = 1 THEN LET a == ShapesOf(1) IN <<SelectSeq(a, Complete), a>>
+  ELSE LET prev == ShapesUpTo(n - 1, dummy)
+           a == Flat([i \in 1..Len(prev[2]) |-> Ext(prev[2][i])])
+       IN <<prev[1] \o SelectSeq(a, Complete), a>>
+Shapes == ShapesUpTo(MaxObjs, 0)[1]
 
 ----------------------------------------------------------------------------
 \* references of a shape: Seq of [owner, target, parts, sched] in textual order
@@ -101,13 +116,15 @@ DefaultRefs(s) ==
 SchedOK(rs) == \A q \in 0..MaxPostpone :
                  (\E i \in 1..Len(rs) : rs[i].sched = q) \/ (\A i \in 1..Len(rs) : rs[i].sched < q)
 RefChoices(s, o) ==
-  {c \in {[owner |-> o, target |-> t, parts |-> p, sched |-> q] :
-            t \in Visible(s, s[o].file), p \in 1..3, q \in 0..MaxPostpone} :
-     c.parts <= 1 + PkgDepth(s, c.target)}
+  SetToSeq({c \in {[owner |-> o, target |-> t, parts |-> p, sched |-> q] :
+                     t \in Visible(s, s[o].file), p \in 1..3, q \in 0..MaxPostpone} :
+              c.parts <= 1 + PkgDepth(s, c.target)})
 RECURSIVE RefSeqs(_, _, _)
-RefSeqs(s, ow, i) == IF i = 0 THEN {<<>>}
-                     ELSE UNION {{Append(rs, c) : c \in RefChoices(s, ow[i])} : rs \in RefSeqs(s, ow, i - 1)}
-AllRefs(s) == LET ow == RefOwners(s) IN {rs \in RefSeqs(s, ow, Len(ow)) : SchedOK(rs)}
+RefSeqs(s, ow, i) ==
+  IF i = 0 THEN <<<<>>>>
+  ELSE LET prev == RefSeqs(s, ow, i - 1) cs == RefChoices(s, ow[i]) IN
+       Flat([a \in 1..Len(prev) |-> [b \in 1..Len(cs) |-> Append(prev[a], cs[b])]])
+AllRefs(s) == LET ow == RefOwners(s) IN SelectSeq(RefSeqs(s, ow, Len(ow)), SchedOK)
 
 ----------------------------------------------------------------------------
 \* abstract layout
@@ -159,49 +176,59 @@ Build(s, rs, main, procs, repl, fault) ==
 RelevantRules(s) == UNION {{s[o].kind, IF s[o].parent = 0 THEN s[o].kind
                                        ELSE CarrierMeta[s[s[o].parent].kind][SlotIndex(s[s[o].parent].kind, s[o].slot)].decl}
                              : o \in 1..Len(s)}
-Tables(s) == {<<P, R>> \in (SUBSET RelevantRules(s)) \X (SUBSET RelevantRules(s)) : R \subseteq P}
+Tables(s) == SetToSeq({<<P, R>> \in (SUBSET RelevantRules(s)) \X (SUBSET RelevantRules(s)) : R \subseteq P})
 
 C13Scenarios(u) ==
-  UNION {LET base == Build(s, DefaultRefs(s), "main.m", <<>>, <<>>, NoFault) IN
-         {[base EXCEPT !.procs = SeqOfSet(t[1]), !.repl = SeqOfSet(t[2])] : t \in Tables(s)}
-           : s \in Shapes}
+  Flat([i \in 1..Len(Shapes) |->
+          LET s == Shapes[i]
+              base == Build(s, DefaultRefs(s), "main.m", <<>>, <<>>, NoFault)
+              ts == Tables(s)
+          IN [j \in 1..Len(ts) |-> [base EXCEPT !.procs = SeqOfSet(ts[j][1]), !.repl = SeqOfSet(ts[j][2])]]])
 \* shapes only (the conformance pass multiplies them with processor tables itself)
-ShapeScenarios(u) == {Build(s, DefaultRefs(s), "main.m", <<>>, <<>>, NoFault) : s \in Shapes}
+ShapeScenarios(u) == [i \in 1..Len(Shapes) |-> Build(Shapes[i], DefaultRefs(Shapes[i]), "main.m", <<>>, <<>>, NoFault)]
 
 \* C33: every processor call and every named object's name match as the failing
 \* site, every row of the decision table
 SupChoices == {<<l, c, n, f>> \in {0, 77} \X {0, 88} \X {0, 99} \X {"", "supplied.x"} :
                  l # 0 \/ c # 0 \/ n # 0 \/ f # ""}
-Excs == {[exc |-> "txnoloc", sup |-> <<0, 0, 0, "">>], [exc |-> "other", sup |-> <<0, 0, 0, "">>]}
-        \cup {[exc |-> "txsome", sup |-> u] : u \in SupChoices}
+Excs == SetToSeq({[exc |-> "txnoloc", sup |-> <<0, 0, 0, "">>], [exc |-> "other", sup |-> <<0, 0, 0, "">>]}
+                 \cup {[exc |-> "txsome", sup |-> u] : u \in SupChoices})
 C33Scenarios(u) ==
-  UNION {
-    LET rs == DefaultRefs(s)
+  Flat([i \in 1..Len(Shapes) |->
+    LET s == Shapes[i]
+        rs == DefaultRefs(s)
         procs == SeqOfSet(RelevantRules(s))
         base(main) == Build(s, rs, main, procs, <<>>, NoFault)
         b0 == base("main.m")
-        objSites == {<<o, r>> \in (1..Len(s)) \X RelevantRules(s) : ExpectedCount(b0, o, r) = 1}
-        matchSites == {o \in 1..Len(s) : s[o].kind \in {"Pkg", "Cell", "DefA", "DefB"}}
-        flt(proc, o, r, e, w) ==
-          [on |-> TRUE, proc |-> proc, obj |-> o, rule |-> r, exc |-> e.exc, wrap |-> w,
+        objSites == {<<"obj", x[1], x[2]>> : x \in {x \in (1..Len(s)) \X RelevantRules(s) : ExpectedCount(b0, x[1], x[2]) = 1}}
+        matchSites == {<<"match", o, "ID">> : o \in {o \in 1..Len(s) : s[o].kind \in {"Pkg", "Cell", "DefA", "DefB"}}}
+        sites == SetToSeq(objSites \cup matchSites)
+        flt(x, e, w) ==
+          [on |-> TRUE, proc |-> x[1], obj |-> x[2], rule |-> x[3], exc |-> e.exc, wrap |-> w,
            sline |-> e.sup[1], scol |-> e.sup[2], snchar |-> e.sup[3], sfile |-> e.sup[4],
-           mfile |-> s[o].file, mline |-> 1, mcol |-> b0.objs[o].start + 6]
-        mains == IF NumFiles(s) = 1 THEN {"", "main.m"} ELSE {"main.m"}
-    IN UNION {LET b == base(main) IN
-              {[b EXCEPT !.fault = flt("obj", x[1], x[2], e, w)] : x \in objSites, e \in Excs, w \in BOOLEAN}
-              \cup {[b EXCEPT !.fault = flt("match", o, "ID", e, w)] : o \in matchSites, e \in Excs, w \in BOOLEAN}
-                : main \in mains}
-    : s \in Shapes}
+           mfile |-> s[x[2]].file, mline |-> 1, mcol |-> b0.objs[x[2]].start + 6]
+        mains == IF NumFiles(s) = 1 THEN <<"", "main.m">> ELSE <<"main.m">>
+    IN Flat([m \in 1..Len(mains) |->
+         LET b == base(mains[m]) IN
+         Flat([a \in 1..Len(sites) |->
+           Flat([c \in 1..Len(Excs) |->
+             <<[b EXCEPT !.fault = flt(sites[a], Excs[c], FALSE)],
+               [b EXCEPT !.fault = flt(sites[a], Excs[c], TRUE)]>>])])])])
 
 C34Scenarios(u) ==
-  UNION {{Build(s, rs, "main.m", <<>>, <<>>, NoFault) : rs \in AllRefs(s)} : s \in Shapes}
+  Flat([i \in 1..Len(Shapes) |->
+          LET s == Shapes[i] rss == AllRefs(s) IN
+          [j \in 1..Len(rss) |-> Build(s, rss[j], "main.m", <<>>, <<>>, NoFault)]])
 
-\* TLC does not cache this (large) constant by itself: it is computed once into register 1
-ScenarioSeq == SetToSeq(CASE Family = "c13" -> C13Scenarios(0)
-                          [] Family = "c33" -> C33Scenarios(0)
-                          [] Family = "c34" -> C34Scenarios(0)
-                          [] Family = "shapes" -> ShapeScenarios(0))
-MCScenarios == IF PrintT("EVAL") THEN ScenarioSeq ELSE <<>>
+\* each family is a constant definition (evaluated once by TLC); only the chosen one is built
+C13All == IF Family = "c13" THEN C13Scenarios(0) ELSE <<>>
+C33All == IF Family = "c33" THEN C33Scenarios(0) ELSE <<>>
+C34All == IF Family = "c34" THEN C34Scenarios(0) ELSE <<>>
+ShapesAll == IF Family = "shapes" THEN ShapeScenarios(0) ELSE <<>>
+MCScenarios == CASE Family = "c13" -> C13All
+                 [] Family = "c33" -> C33All
+                 [] Family = "c34" -> C34All
+                 [] Family = "shapes" -> ShapesAll
 
 NoDev == {}
 EnvDev == IF IOEnv.VT_DEV = "" THEN {} ELSE {IOEnv.VT_DEV}
